@@ -244,16 +244,173 @@ theorem wf_stepCall (fv self : Value N) (args : List (Value N)) (hfv : VOk st fv
   · -- not a function: excluded by the task invariant
     cases fv <;> simp_all [isFunction]
 
-set_option maxHeartbeats 2000000 in
-theorem wf_stepNode (e : Expr N) : ROk st (stepNode ev fr e st) := by
+theorem wf_node_null  : ROk st (stepNode ev fr (.null) st) := by
   have hf1 := hf.1
   have hf2 := hf.2
-  unfold stepNode
-  split
-  all_goals first
-    | (wf_auto; done)
-    | skip
-  all_goals sorry
+  simp only [stepNode]
+  wf_auto
+
+theorem wf_node_num (n : N) : ROk st (stepNode ev fr (.num n) st) := by
+  have hf1 := hf.1
+  have hf2 := hf.2
+  simp only [stepNode]
+  wf_auto
+
+theorem wf_node_bool (b : Bool) : ROk st (stepNode ev fr (.bool b) st) := by
+  have hf1 := hf.1
+  have hf2 := hf.2
+  simp only [stepNode]
+  wf_auto
+
+theorem wf_node_str (s : String) : ROk st (stepNode ev fr (.str s) st) := by
+  have hf1 := hf.1
+  have hf2 := hf.2
+  simp only [stepNode]
+  wf_auto
+
+theorem wf_node_var (x : String) : ROk st (stepNode ev fr (.var x) st) := by
+  have hf1 := hf.1
+  have hf2 := hf.2
+  simp only [stepNode]
+  wf_auto
+
+theorem wf_node_scope (sc : Scope) : ROk st (stepNode ev fr (.scope sc) st) := by
+  have hf1 := hf.1
+  have hf2 := hf.2
+  simp only [stepNode]
+  wf_auto
+
+theorem wf_node_bnot (a : Expr N) : ROk st (stepNode ev fr (.bnot a) st) := by
+  have hf1 := hf.1
+  have hf2 := hf.2
+  simp only [stepNode]
+  wf_auto
+
+theorem wf_node_lnot (a : Expr N) : ROk st (stepNode ev fr (.lnot a) st) := by
+  have hf1 := hf.1
+  have hf2 := hf.2
+  simp only [stepNode]
+  wf_auto
+
+theorem wf_node_bin (op : BinOp) (a b : Expr N) : ROk st (stepNode ev fr (.bin op a b) st) := by
+  have hf1 := hf.1
+  have hf2 := hf.2
+  simp only [stepNode]
+  wf_auto
+
+theorem wf_node_and (a b : Expr N) : ROk st (stepNode ev fr (.and a b) st) := by
+  have hf1 := hf.1
+  have hf2 := hf.2
+  simp only [stepNode]
+  wf_auto
+
+theorem wf_node_or (a b : Expr N) : ROk st (stepNode ev fr (.or a b) st) := by
+  have hf1 := hf.1
+  have hf2 := hf.2
+  simp only [stepNode]
+  wf_auto
+
+theorem wf_node_isIn (a b : Expr N) : ROk st (stepNode ev fr (.isIn a b) st) := by
+  have hf1 := hf.1
+  have hf2 := hf.2
+  simp only [stepNode]
+  wf_auto
+
+theorem wf_node_notIn (a b : Expr N) : ROk st (stepNode ev fr (.notIn a b) st) := by
+  have hf1 := hf.1
+  have hf2 := hf.2
+  simp only [stepNode]
+  wf_auto
+
+theorem wf_node_index (a b : Expr N) : ROk st (stepNode ev fr (.index a b) st) := by
+  have hf1 := hf.1
+  have hf2 := hf.2
+  simp only [stepNode]
+  wf_auto
+
+theorem wf_node_call (f : Expr N) (args : List (Expr N)) : ROk st (stepNode ev fr (.call f args) st) := by
+  have hf1 := hf.1
+  have hf2 := hf.2
+  simp only [stepNode]
+  wf_auto
+
+theorem wf_node_array (es : List (Expr N)) : ROk st (stepNode ev fr (.array es) st) := by
+  have hf1 := hf.1
+  have hf2 := hf.2
+  simp only [stepNode]
+  wf_auto
+
+theorem wf_node_dict (body : List (Expr N)) : ROk st (stepNode ev fr (.dict body) st) := by
+  have hf1 := hf.1
+  have hf2 := hf.2
+  simp only [stepNode]
+  wf_auto
+
+theorem wf_node_block (body : List (Expr N)) : ROk st (stepNode ev fr (.block body) st) := by
+  have hf1 := hf.1
+  have hf2 := hf.2
+  simp only [stepNode]
+  wf_auto
+
+theorem wf_node_set (lhs : Expr N) (op : SetOp) (rhs : Expr N) : ROk st (stepNode ev fr (.set lhs op rhs) st) := by
+  have hf1 := hf.1
+  have hf2 := hf.2
+  simp only [stepNode]
+  wf_auto
+
+theorem wf_node_cond (c t : Expr N) (f : Option (Expr N)) : ROk st (stepNode ev fr (.cond c t f) st) := by
+  have hf1 := hf.1
+  have hf2 := hf.2
+  simp only [stepNode]
+  wf_auto
+
+theorem wf_node_while (c body : Expr N) : ROk st (stepNode ev fr (.while c body) st) := by
+  have hf1 := hf.1
+  have hf2 := hf.2
+  simp only [stepNode]
+  wf_auto
+
+theorem wf_node_for (k v : String) (e body : Expr N) : ROk st (stepNode ev fr (.for k v e body) st) := by
+  have hf1 := hf.1
+  have hf2 := hf.2
+  simp only [stepNode]
+  wf_auto
+
+theorem wf_node_func (ps us : List String) (body : Expr N) : ROk st (stepNode ev fr (.func ps us body) st) := by
+  have hf1 := hf.1
+  have hf2 := hf.2
+  simp only [stepNode]
+  wf_auto
+
+theorem wf_node_ret (a : Expr N) : ROk st (stepNode ev fr (.ret a) st) := by
+  have hf1 := hf.1
+  have hf2 := hf.2
+  simp only [stepNode]
+  wf_auto
+
+theorem wf_node_brk  : ROk st (stepNode ev fr (.brk) st) := by
+  have hf1 := hf.1
+  have hf2 := hf.2
+  simp only [stepNode]
+  wf_auto
+
+theorem wf_node_cont  : ROk st (stepNode ev fr (.cont) st) := by
+  have hf1 := hf.1
+  have hf2 := hf.2
+  simp only [stepNode]
+  wf_auto
+
+theorem wf_node_throw (a : Expr N) : ROk st (stepNode ev fr (.throw a) st) := by
+  have hf1 := hf.1
+  have hf2 := hf.2
+  simp only [stepNode]
+  wf_auto
+
+theorem wf_node_try (a b : Expr N) : ROk st (stepNode ev fr (.try a b) st) := by
+  have hf1 := hf.1
+  have hf2 := hf.2
+  simp only [stepNode]
+  wf_auto
 
 end steps
 
